@@ -164,6 +164,7 @@ class Exec:
         self.pc = []
         self.pending = []
         self.consumed = []
+        self._qmemo = {}
         self.trace = []
         self.loop_stack = []
         self.warned = z3.BoolVal(False)
@@ -179,9 +180,20 @@ class Exec:
     def _check(self, extra, ground_only, ms):
         self.stats["feas"] += 1
         s = self._solver(ms)
+        if not ground_only:
+            # E-matching only: a quantified refutation is found (or not) without the model-based
+            # instantiation loop that would burn the whole budget on satisfiable path conditions
+            s.set("smt.mbqi", False)
+        memo = self._qmemo
         for f in self.c.axioms + self.pc + [extra]:
-            if not ground_only or not _has_quant(f):
-                s.add(f)
+            if ground_only:
+                k = id(f)
+                q = memo.get(k)
+                if q is None:
+                    q = memo[k] = (_has_quant(f), f)  # f kept alive so id() stays unique
+                if q[0]:
+                    continue
+            s.add(f)
         return s.check()
 
     def decide(self, cond):
@@ -528,18 +540,26 @@ class Exec:
         return out
 
     # ------------------------------------------------------------------ running a function
-    def verify(self, spec, variant=None):
-        """Generate and solve all obligations of one function under its contract."""
+    def verify(self, spec, variant=None, root=None, budget=None):
+        """Generate and solve the obligations of one function under its contract.
+
+        root: explore only the subtree of paths under this decision prefix (None = all paths);
+        budget: stop after this many paths and leave the unexplored prefixes in self.leftover, so a
+        scheduler can hand disjoint subtrees to other processes."""
         fn = extract.function(spec.qual)
         self.spec = spec
         self.fn = fn
         self.fname = spec.qual.split("::")[1]
         self.variant = variant or {}
         self._loop_ord = {}
-        work = [[]]
+        work = [list(root) if root else []]
+        self.leftover = []
         npaths = 0
         while work:
-            prefix = work.pop()
+            if budget is not None and npaths >= budget:
+                self.leftover = work
+                break
+            prefix = work.pop(0)
             self._reset(prefix)
             npaths += 1
             if npaths > 4000:
@@ -1191,7 +1211,11 @@ class Exec:
                     raise Unsupported("directed record of non-sets")
                 if v.home is not None and not v.frozen:
                     raise Unsupported("ownership: directed record built from a borrowed set")
-            return VRec(vals["in"].get(), vals["out"].get())
+            r = VRec(vals["in"].get(), vals["out"].get())
+            for nm, v in vals.items():
+                if v.home is None and v.rec is None and not v.frozen:
+                    v.rec = (r, nm)  # the local set object now is the record's field (aliasing)
+            return r
         has, val = c.EMPTY, c.fresh("dv", c.MapVal)
         for k, v in zip(e.keys, e.values):
             if k is None:
